@@ -411,11 +411,29 @@ func (p *Prog) condAtoms(v ssa.Value, want bool, depth int) DNF {
 			condBusy[x] = true
 			defer delete(condBusy, x)
 			out := dnfFalse()
+			opaque := false
 			for i, e := range x.Edges {
-				d := p.condAtoms(e, want, depth+1)
 				pred := x.Block().Preds[i]
+				if x.Block().Dominates(pred) {
+					// back edge: the value belongs to the previous iteration; conditions on that
+					// path speak about earlier dynamic instances of the same SSA values and must
+					// not be mixed with the current ones. Constants contribute without a path
+					// condition (weakening); anything else makes the phi opaque.
+					if b, ok := p.Origin(e).ConstBoolVal(); ok {
+						if b == want {
+							out = dnfOr(out, dnfTrue())
+						}
+						continue
+					}
+					opaque = true
+					break
+				}
+				d := p.condAtoms(e, want, depth+1)
 				d = dnfAnd(d, p.ReachCondRel(x.Block().Idom(), pred, x.Block()))
 				out = dnfOr(out, d)
+			}
+			if opaque {
+				break
 			}
 			return out
 		}
